@@ -10,6 +10,7 @@ SCEN = {  # the harness scenarios as histories of the model: the environment's p
     "inbound-requests-with-slow-handlers": "p_connect ++ [LNet 0; LHand 0 (Some true); LNet 0; LHand 0 (Some true); LNewClose; LClose 0 true]",
     "reconnect-in-progress": "[LLc; LRt true; LRt true; LDial false; LRt true; LRt true; LLc; LNewClose]",
     "reconnect-after-several-failures": "[LLc; LRt true; LRt true; LDial false; LRt true; LRt true; LLc; LTimer; LRt true; LRt true; LDial false; LRt true; LRt true; LNewClose]",
+    "close-after-dial-context-ended-and-connection-lost": "p_connect ++ [LSockDie 0; LRp 0; LWpCwp 0; LNewClose]",
     "inbound-burst": "p_connect ++ [LNet 0; LHand 0 (Some true); LHandlerRet 0 true; LNet 0; LHand 0 (Some false); LNet 0; LNewClose; LClose 0 true]",
     "concurrent-close": "p_connect ++ [LNewClose; LNewClose; LNewClose; LClose 0 true; LClose 1 true; LClose 2 true; LClose 1 true]",
     "close-right-after-dial": "[LLc; LRt true; LRt true; LNewClose; LClose 0 true; LDial true]",
